@@ -1,6 +1,7 @@
 import NeoFS.Generated.AccessIR
 import NeoFS.Model.AccessExpect
 import NeoFS.Lemmas.Access
+import NeoFS.Props.C03Defs
 /-! # C03 — every mutating contract method is inert without its required witnesses
 
 `NeoFS.Generated.Access.methods` is regenerated from the Go sources on every run (one IR program per exported
@@ -11,38 +12,6 @@ The abstraction (`Exec`) and its soundness theorem are in `Model/Access.lean` / 
 translator is cross-checked by the dynamic product of `harness/access`. -/
 namespace NeoFS.Props.C03
 open NeoFS.Access NeoFS.Access.Expect NeoFS.Generated.Access
-
-/-- atoms of a method that hold under the bit mask -/
-def holdsOf (atoms : List String) (mask : Nat) : Holds :=
-  fun p => (atoms.zipIdx).any (fun ai => p ai.1 && mask.testBit ai.2)
-
-/-- the decision run on every table entry -/
-def methodOK (m : MethodIR) : Bool :=
-  match req m.contract m.method with
-  | .exempt _ => true
-  | .needs f => (List.range (2 ^ m.atoms.length)).all fun mask =>
-      f (holdsOf m.atoms mask) || inertB (maskVal mask) m.prog
-  | .anyGuard => inertB (maskVal 0) m.prog
-
-def syntacticallyPure : Stmt → Bool
-  | .effect => false
-  | .seq a b | .choice a b | .try a b | .ifW _ a b => syntacticallyPure a && syntacticallyPure b
-  | .loop a | .scope a => syntacticallyPure a
-  | .callIf c a b => syntacticallyPure c && syntacticallyPure a && syntacticallyPure b
-  | _ => true
-
-/-- … and that with all its atoms granted an effect is reachable at all (the requirement is not vacuous) -/
-def methodLive (m : MethodIR) : Bool :=
-  match req m.contract m.method with
-  | .needs _ => syntacticallyPure m.prog || canEffectB (maskVal (2 ^ m.atoms.length - 1)) m.prog
-  | _ => true
-
-def verifyOK (m : MethodIR) : Bool :=
-  if m.method == "verify" then
-    (List.range (2 ^ m.atoms.length)).all fun mask =>
-      verifyReq m.contract (holdsOf m.atoms mask) ||
-        (outs (maskVal mask) m.prog false).all (fun r => r.1 != .retT)
-  else true
 
 /-- Every method of every contract: without the documented witnesses it is inert (decided by `inertB`). -/
 theorem table_inert : methods.all methodOK = true := by decide +kernel
